@@ -79,7 +79,8 @@ def op_term(o):
     if t == "g":
         g = o["g"]
         res = "None" if g.get("k") != "ok" else "(Some %s)" % ac(g["ac"])
-        return "(OGac %s %d %s)" % (res, VCODE.get(g.get("v"), 99), pool)
+        ek = {"ok": 0, "err:params": 1, "err:agg": 2}.get(g.get("k"), 3)
+        return "(OGac %s %d %d %s)" % (res, ek, VCODE.get(g.get("v"), 99), pool)
     if t == "cl":
         return "(OCleanup %s %s)" % (clist(o.get("keep") or []), pool)
     if t == "se":
@@ -206,7 +207,7 @@ def run(ck):
             [x for x in r0["ops"] if x["t"] == "g" and x["g"].get("ac") and x["g"]["ac"]["bits"]][:1] + [x for x in r0["ops"] if x["t"] == "s"][:1]:
         ck.sample({"scenario": r0["id"], "mhp": r0["mhp"], "mhc": r0["mhc"], "op": o})
     ck.cov["rule"] = ("scenarios = chains built with the real liskbft module (random validator sets of 1..5 real BLS keys, random weights / "
-                      "thresholds, 0..4 parameter changes incl. adjacent ones, chains shorter and longer than 100 blocks, certified height "
+                      "thresholds; validator sets of 8, 9, 16, 17, 20, ... , 103 keys with sampled signer subsets covering every bitmap byte; 0..4 parameter changes incl. adjacent ones, chains shorter and longer than 100 blocks, certified height "
                       "moved by aggregate commits in headers). Per scenario: verify on empty commits and on honest commits of EVERY signer "
                       "subset at every height of a sweep around maxHeightCertified, maxHeightPrecommitted, the next parameter height and the "
                       "tip; every single-bit flip, bitmap length change, every other sweep height, and six signature tamperings of accepted "
